@@ -3,8 +3,9 @@
 Oracle (state invariant at quiescence): after fileno() has been called,
     select([fd],[],[],0) readable  <=>  len(in_buffer)>0 or len(in_stderr_buffer)>0
                                         or eof_received or closed
-judged only when every worker thread has joined (or, for a deadlock, when every
-live worker is blocked for good), never while an operation is in flight.
+judged only when every worker thread has joined, never while an operation is in
+flight.  A deadlock of the workers (liveness, outside the statement) is recorded as a
+side finding and the run is not judged.
 
 Strata
   seq      random sequential op sequences on one channel, invariant after every op
@@ -206,8 +207,6 @@ def judge_run(ctx, bench, run, where):
         how = "single preemption in %s, no notifier interleaving" % (run.park_at[0] if run.park_at else "?")
     else:
         how = "random perturbation, no notifier interleaving"
-    if where == "deadlock":
-        how += " (judged at deadlock)"
     ctx.violation("%s; %s" % (kind, how),
                   "select() on Channel.fileno() disagrees with the buffers/flags at quiescence",
                   dict(workload=bench.wl, plan=run.plan.describe(), observed=ob, park_at=run.park_at,
@@ -220,16 +219,18 @@ def run_plan(ctx, eng, wl, plan, stats):
     state = {"judged": False}
 
     def on_hang(run, roles):
-        # every live worker is blocked for good: a quiescent state. judge, then rescue if we know how.
+        # Every live worker looks blocked for good.  Blocked detection is a bounded wait, so no
+        # verdict is taken from such a state and the run is not judged afterwards either; the
+        # deadlock itself (liveness) is outside the statement and is recorded as a side finding.
         tops = [fr[0] if fr else "" for _, fr in run.hung]
         ctx.count("deadlocks_observed")
-        stats.setdefault("deadlock_witness", dict(workload=wl, plan=run.plan.describe(), stacks=run.hung,
-                                                  park_at=run.park_at))
-        judge_run(ctx, bench, run, "deadlock")
         state["judged"] = True
+        stats.setdefault("deadlock_witness", dict(workload=wl, plan=run.plan.describe(), stacks=run.hung,
+                                                  park_at=run.park_at, observed=bench.observe()))
         if any("PosixPipe.clear" in t or "WindowsPipe.clear" in t for t in tops):
             ctx.count("side_deadlock_in_pipe_clear")
-            stats.setdefault("side_deadlock_witness", dict(workload=wl, plan=run.plan.describe(), stacks=run.hung))
+            stats.setdefault("side_deadlock_witness", dict(workload=wl, plan=run.plan.describe(), stacks=run.hung,
+                                                           observed=bench.observe()))
             p = bench.chan._pipe
             if p is not None:
                 os.write(p._wfd, b"*")  # unblock the os.read so the thread can end
@@ -259,13 +260,14 @@ def run_plan(ctx, eng, wl, plan, stats):
     for role, exc in run.excs.items():
         ctx.inconclusive("worker %s raised %r in workload %r" % (role, exc, wl))
     if run.leaked:
-        if not state["judged"]:
-            ctx.inconclusive("workers neither finished nor reached a stable blocked state: %r" % (run.hung,))
-        elif not any("Pipe.clear" in (fr[0] if fr else "") for _, fr in run.hung):
-            ctx.inconclusive("deadlock the harness cannot release: %r workload %r plan %r"
+        ctx.count("runs_not_judged_workers_still_blocked")
+        if not any("Pipe.clear" in (fr[0] if fr else "") for _, fr in run.hung):
+            ctx.inconclusive("workers blocked and the harness cannot release them: %r workload %r plan %r"
                              % (run.hung, wl, plan.describe()))
         return run  # threads are still alive: do not touch the channel any more
-    if not state["judged"]:
+    if state["judged"]:
+        ctx.count("runs_not_judged_after_deadlock")
+    else:
         judge_run(ctx, bench, run, "end")
     bench.dispose()
     return run
@@ -476,7 +478,7 @@ def run(ctx):
             return
     stats = {}
     t_core = ctx.pick(9, 170)
-    t_end = ctx.pick(16, 420)
+    t_end = ctx.pick(16, 380)
 
     def perturbed(wl, n):
         for _ in range(n):
